@@ -7277,8 +7277,9 @@ tsk_tree_map_mutations(tsk_tree_t *self, int32_t *genotypes,
         }
         u = self->tree_sequence->samples[j];
         if (genotypes[j] == TSK_MISSING_DATA) {
-            /* All bits set */
-            optimal_set[u] = UINT64_MAX;
+            /* A sample with missing data does not constrain the reconstruction:
+             * its optimal set is left empty here and computed from its children
+             * below, exactly as for a non-sample node. */
         } else {
             optimal_set[u] = set_bit(optimal_set[u], genotypes[j]);
             num_alleles = TSK_MAX(genotypes[j], num_alleles);
@@ -7316,7 +7317,8 @@ tsk_tree_map_mutations(tsk_tree_t *self, int32_t *genotypes,
             }
         }
         /* the virtual root has no flags defined */
-        if (u == (tsk_id_t) N || !(node_flags[u] & TSK_NODE_IS_SAMPLE)) {
+        if (u == (tsk_id_t) N || !(node_flags[u] & TSK_NODE_IS_SAMPLE)
+            || optimal_set[u] == 0) {
             max_allele_count = 0;
             for (allele = 0; allele < num_alleles; allele++) {
                 max_allele_count = TSK_MAX(max_allele_count, allele_count[allele]);
